@@ -201,7 +201,51 @@ def fmt(x):
 
 
 # ------------------------------------------------------------------ run
+def replay(ctx):
+    """Re-run the op list of a replay file (a crash image + continuation, a history, or a JSON flush history); exit 1 if it still fails."""
+    obj = json.load(open(ctx.replay))
+    ops = obj.get("ops") or []
+    ctx.translate(["kv"])
+    ctx.lake_build(MODULES)
+    if not ops:
+        print("replay: nothing to run (kind=%s)" % obj.get("kind"))
+        return 1 if ctx.violations else 0
+    kvwork = os.path.join(ctx.work, "kvdirs")
+    os.makedirs(kvwork, exist_ok=True)
+    env = {"KV_WORK": kvwork}
+    still = False
+    if ops[0].startswith("j"):
+        hj = ctx.build_harness("harness/c11_jfs.cpp", sanitize=True, flags=SAN_FLAGS)
+        img = obj.get("image")
+        lines = ops + (["jimage %s %s" % (img["file"], img["tmp"])] if img else [])
+        out, rc, err = ctx.run_lines([hj], lines, timeout=300, env=env)
+        for o, a in zip(lines, out):
+            print("op    %s\n impl  %s" % (o[:200], a[:200]))
+        still = bool(img) and out[-1:] == [obj.get("observed")]
+    else:
+        hb = ctx.build_harness("harness/c11_kv.cpp", sanitize=True, flags=SAN_FLAGS)
+        if ops[0].startswith("bigvalue") or any(o.startswith("bigvalue") for o in ops):
+            out, rc, err = ctx.run_lines([hb], ops, timeout=600, env=env)
+            for o, a in zip(ops, out):
+                print("op    %s\n impl  %s" % (o[:200], a[:200]))
+            still = obj.get("expected") is not None and (len(out) < 7 or out[6] != obj["expected"])
+        else:
+            (c, impl, model), = ctx.lockstep("kv", hb, [{"cat": "replay", "ops": ops}], impl_env=env)
+            for o, a, b in zip(ops, impl, model):
+                print("op    %s\n impl  %s\n model %s" % (o[:200], a[:200], b[:200]))
+            want = obj.get("observed")
+            same_as_recorded = want is not None and [K.canon_line(x) for x in impl] == [K.canon_line(x) for x in want]
+            mism = [i for i, (a, b) in enumerate(zip(impl, model)) if K.canon_line(a).split(" inv=")[0] != K.canon_line(b)]
+            still = same_as_recorded or bool(mism)
+    print("replay: %s" % ("still failing" if still else "no longer failing"))
+    import shutil
+    shutil.rmtree(ctx.work, ignore_errors=True)
+    return 1 if still else 0
+
+
 def run(ctx: Ctx):
+    if ctx.replay:
+        return replay(ctx)
     quick = ctx.tier == "quick"
     rng = ctx.rng
     ctx.translate(["kv"])
@@ -243,8 +287,8 @@ def run(ctx: Ctx):
 
 
 def run_kv(ctx, hb, env, rng, quick, stats, where_dist):
-    n_hist = 50 if quick else 1200
-    max_images = 120 if quick else 400
+    n_hist = 60 if quick else 400
+    max_images = 120 if quick else 300
     # ---- pass 1: histories (file-operation trace of every op vs the model's fsOps)
     hist = []
     for c in load_corpus():
@@ -342,8 +386,11 @@ def run_kv(ctx, hb, env, rng, quick, stats, where_dist):
             more = K.gen_more(r, r.range(1, 5), ref, ic["keys"], ic["cfgd"], allow_reopen=True)
             ic["ops"] = ic["ops"] + more + ["reopen", "read - %s" % " ".join(hexs(k) for k in ic["keys"] if len(k) <= 64), "state"]
     # ---- pass 2: every image reopened by the real store and by the model's load
-    res2 = ctx.lockstep("kv", hb, image_cases, impl_env=env, timeout=3000)
+    res2 = ctx.lockstep("kv", hb, image_cases + [{"cat": "stats", "ops": ["stats"]}], impl_env=env, timeout=6000)
     for c, impl, model in res2:
+        if c["cat"] == "stats":
+            ctx.extra["interposer_counts"] = dict(x.split("=") for x in impl[0].split()[1:]) if impl[0].startswith("stats ") else impl[0]
+            continue
         img = c["img"]
         stats["images"] += 1
         ctx.count_case(c["ops"][0], nontrivial=impl[1] != "kv=- exp=-")
